@@ -4,6 +4,21 @@ import json, glob, os
 ROOT = os.path.dirname(os.path.dirname(os.path.abspath(__file__)))
 # seeds that the quick tier missed when first tried, and what was strengthened
 HISTORY = {
+ "C01-h": "missed at first (macro kinds never combined \\global with \\long/\\outer); prefix-combination assignment forms added",
+ "C03-h": "missed at first (C03 drove the bare Lexer, not the stdlib glue); VM-level families vm-endlinechar, vm-catcode",
+ "C05-f": "missed at first (ASCII-only alphabet); family programs-8bit",
+ "C06-f": "missed at first (malformed constants judged for no-panic only); sub-domain non-decimal constant followed by a decimal point judged precisely",
+ "C08-g": "missed at first (no fragment touched the last register of an array); first/last index fragments",
+ "C08-h": "missed at first (no macro with an empty body); macro-shape fragments",
+ "C09-e": "missed at first (no non-ASCII leading lines); family nonascii-lines",
+ "C09-g": "missed at first (only one side of the surrogate range in the vocabulary); value-1/value/value+1 for every parser limit",
+ "C10-h": "missed at first (no text ended in a carriage return); family pl-line-endings, CR tokens in the short-text vocabulary",
+ "C11-e": "missed at first; family tfm-varchar-sevenbit (VARCHAR recipes with absent pieces, with and without character 0)",
+ "C11-f": "missed at first; family tfm-varchar-sevenbit (seven-bit-safe flag x left-boundary programs inserting 8-bit glyphs)",
+ "C13-h": "missed at first (ASCII-only alphabets); non-ASCII alphabet with a harness LowerCaser",
+ "C15-h": "missed at first (rules were fully explicit or fully running); mixed running/explicit rules",
+ "C17-g": "missed at first (compress lattices never spanned more than 2048); extreme-member value sets",
+ "C19-h": "missed at first (no read file had the unbalanced brace on its last line); files added",
  "C01-b": "missed at first (pair family bounded at 4 ops); new family globaldefs-histories",
  "C01-f": "missed at first (every assignment had a fresh value); same-value reassignment variants added",
  "C02-a": "missed by C02 at first (delimiters had <= 2 tokens; caught by C20's KMP family); new family long-delimiters",
